@@ -169,23 +169,29 @@ class SubstanceGet(Harness):
         return out
 
     def native(self, inputs, label):
-        # water has density: input 1 kg/... ; use a real substance for the zero / ordinary amount behaviour
+        # the same three kinds of lookup on a real substance (water: density relates volume -> mass)
         a = Fraction(inputs['a'])
-        return [{'mode': 'query', 'text': 'volume of (%s kg water)' % frac_text(a)},
-                {'mode': 'query', 'text': 'volume of (1 kg water)'}]
+        k = Fraction(inputs.get('k', 1)) if self.scaled else Fraction(1)
+        q = inputs['q']
+        amt = a * k
+        if q.startswith('p'):
+            return [{'mode': 'query', 'text': 'density of (%s water)' % frac_text(amt)}, {'mode': 'query', 'text': 'density of water'}]
+        if q.startswith('out'):
+            return [{'mode': 'query', 'text': 'mass of (%s m^3 water)' % frac_text(amt)}, {'mode': 'query', 'text': 'mass of (1 m^3 water)'}]
+        return [{'mode': 'query', 'text': 'volume of (%s kg water)' % frac_text(amt)}, {'mode': 'query', 'text': 'volume of (1 kg water)'}]
 
     def judge(self, inputs, label, obs):
-        a = Fraction(inputs['a'])
+        a = Fraction(inputs['a']) * (Fraction(inputs.get('k', 1)) if self.scaled else 1)
         q, one = obs
         if q.get('outcome') == 'panic' or q.get('render_panic'):
             return True, 'panic %s' % (q.get('panic') or q.get('render_panic'))
         got, unit = obs_number_json(q), obs_number_json(one)
         if unit is None:
-            return False, 'reference query failed'
+            return False, 'reference query failed: %s' % one.get('display')
         want = a * unit[0]
         if got is None or got[0] != want:
-            return True, '`volume of (%s kg water)` gave %s (%s), expected %s m^3' % (a, got, q.get('display'), want)
-        return False, 'agrees on water'
+            return True, '%s gave %s (%s), expected %s' % (inputs['q'], got, q.get('display'), want)
+        return 'kernel-only' if 'unit' in label else False, 'agrees on water (the model substance is symbolic)'
 
 
 class Formula(Harness):
@@ -252,5 +258,88 @@ class Formula(Harness):
         return False, '`%s` -> %s' % (self._text(inputs), (q.get('display') or '')[:80])
 
 
+class FormulaSum(Harness):
+    """several element symbols with symbolic counts (digits only): exact count-weighted sum"""
+    props = ('C16', 'C04')
+    entry = 'substance_from_formula'
+    loop_bound = 40
+    _concrete = None
+
+    def __init__(self, symbols, ndigits):
+        self.symbols = symbols
+        self.ndigits = ndigits
+        self.name = 'formula.sum.' + ''.join(symbols)
+        self.describe = 'substance_from_formula on %s, each followed by %d symbolic digits; H and O with arbitrary molar masses' % ('+'.join(symbols), ndigits)
+        self.bounds = ['%d element terms, counts of exactly %d digits (leading zeros allowed)' % (len(symbols), ndigits)]
+        self.expect_classes = ['Option::Some']
+
+    def build(self, ex, I):
+        chars = []
+        counts = []
+        for i, sym in enumerate(self.symbols):
+            chars.append(ord(sym))
+            ds = [I.int('d%d_%d' % (i, j)) for j in range(self.ndigits)]
+            for c in ds:
+                ex.assume(z3.And(c >= 48, c <= 57))
+            cnt = z3.IntVal(0)
+            for c in ds:
+                cnt = cnt * 10 + (c - 48)
+            ex.assume(cnt <= 2 ** 32 - 1)
+            counts.append((sym, cnt))
+            chars += ds
+        masses = {'H': I.real('mass_H'), 'O': I.real('mass_O')}
+        for m in masses.values():
+            ex.assume(m > 0)
+        kgmol = lambda: dim({'kg': (True, 1), 'mol': (True, -1)})
+        symbols = MapV()
+        subs = MapV()
+        for sym, nm in (('H', 'hydrogen'), ('O', 'oxygen')):
+            symbols.ent[sym] = [sym, True, nm]
+            subs.ent[nm] = [nm, True, substance(ex, number(rational(Fraction(1)), dim({})), nm,
+                                              {'molar_mass': prop_struct(ex, number(rational(Fraction(1)), dim({})), 'amount',
+                                                                         number(rational(masses[sym]), kgmol()), 'mass')})]
+        return [SymStr(chars), ref(symbols), ref(subs)], {'counts': counts, 'masses': masses}
+
+    def post(self, ex, ctx, outcome):
+        r = deref_all(outcome[1])
+        if not is_some(r):
+            return [('a well-formed formula with counts up to 2^32-1 is accepted', False)]
+        s = deref_all(payload(r))
+        props = deref_all(deref_all(s.fields[1]).fields[1])
+        out = props.ent['molar_mass'][2].fields[ex.prog.src.structs['Property'].index('output')]
+        val, d = number_parts(out)
+        want = z3.RealVal(0)
+        for sym, cnt in ctx['counts']:
+            want = want + z3.ToReal(cnt) * zreal(ctx['masses'][sym])
+        return [('molar mass = exact count-weighted sum', zreal(numeric_parts(val)[1]) == want)]
+
+    def _text(self, inputs):
+        out = ''
+        for i, sym in enumerate(self.symbols):
+            out += sym + ''.join(chr(int(inputs['d%d_%d' % (i, j)])) for j in range(self.ndigits))
+        return out
+
+    def native(self, inputs, label):
+        t = self._text(inputs)
+        return [{'mode': 'query', 'text': 'molar_mass of %s' % t}, {'mode': 'query', 'text': 'molar_mass of hydrogen'}, {'mode': 'query', 'text': 'molar_mass of oxygen'}]
+
+    def judge(self, inputs, label, obs):
+        q, h, o = obs
+        if q.get('outcome') == 'panic' or q.get('render_panic'):
+            return True, 'panic %s' % (q.get('panic') or q.get('render_panic'))
+        got, mh, mo = obs_number_json(q), obs_number_json(h), obs_number_json(o)
+        if mh is None or mo is None:
+            return False, 'reference queries failed'
+        want = Fraction(0)
+        for i, sym in enumerate(self.symbols):
+            cnt = int(''.join(chr(int(inputs['d%d_%d' % (i, j)])) for j in range(self.ndigits)))
+            want += cnt * (mh[0] if sym == 'H' else mo[0])
+        t = self._text(inputs)
+        return (got is None or got[0] != want), 'molar_mass of %s = %s, expected %s' % (t, got, want)
+
+    def prefer(self, ctx):
+        return []
+
+
 def harnesses(tier):
-    return [SubstanceGet(False), SubstanceGet(True), Formula(11)]
+    return [SubstanceGet(False), SubstanceGet(True), Formula(11), FormulaSum(['H', 'H'], 10), FormulaSum(['H', 'O', 'H'], 3 if tier == 'quick' else 10)]
